@@ -474,33 +474,7 @@ func runC05(r *Report, tier string) {
 			fs := P.factsBefore(st)
 			r.ob("R05.4", name+":nonempty-signature", st.Parent(), st, "stored Signature is non-empty").check(fs.holdsNonEmpty(sg), "fact len("+sg.String()+") != 0", "the decoder can store an empty signature: no fact len("+sg.String()+") != 0 before the store")
 		}
-		// R05.5 layer facts on the Headers of the stored value
-		var vroot *ssa.Alloc
-		if u, ok := st.Val.(*ssa.UnOp); ok {
-			if a, ok := u.X.(*ssa.Alloc); ok {
-				vroot = a
-			}
-		}
-		ol := r.ob("R05.5", name+":layer", st.Parent(), st, "ok(decode RawProtected->Protected), ok(decode RawUnprotected->Unprotected), ok(IV check) hold for the Headers of the stored value")
-		if vroot == nil {
-			ol.fail("stored value is not a local built in place: " + V.String())
-			continue
-		}
-		H := &Term{Op: "field", S: "Headers", Args: []*Term{P.terms.of(vroot)}}
-		fs := P.factsBefore(st)
-		b0 := bindings{"H": H}
-		miss, _ := fs.firstMissing([]factPat{
-			fp(okp("call<invoke:cbor.DecMode.Unmarshal>(%M1, *%H.RawProtected, iface<*ProtectedHeader>(%H.Protected))")),
-			fp(okp("call<invoke:cbor.DecMode.Unmarshal>(%M2, *%H.RawUnprotected, iface<*UnprotectedHeader>(%H.Unprotected))")),
-			fp(okp("call<" + shortFn(ivFn) + ">(%H)")),
-		}, b0)
-		ol.check(miss == "", "three facts on "+H.String(), "missing before the store: "+miss)
-		// raw fields come from the wire struct
-		for _, pr := range [][2]string{{"RawProtected", "Protected"}, {"RawUnprotected", "Unprotected"}} {
-			hv := projectField(projectField(V, "Headers"), pr[0])
-			okRaw := hv.Op == "field" && hv.S == pr[1] && hv.Args[0].Op == "mod" && strings.Contains(hv.Args[0].String(), "*"+W.Obj().Name())
-			r.ob("R05.5", name+":raw:"+pr[0], st.Parent(), st, "Headers."+pr[0]+" of the stored value is the wire struct's "+pr[1]+" slot").check(okRaw, hv.String(), "Headers."+pr[0]+" = "+hv.String())
-		}
+		checkDecoderLayer(r, "R05.5", name, st, W, ivFn)
 	}
 	r.floor("R05.3", nsd, 5, "structure decoders")
 	// pairwise different first bytes
@@ -570,6 +544,39 @@ func runC05(r *Report, tier string) {
 	c05Buckets(r, "R05.5")
 	c05BstrNil(r, isTF)
 	checkCountersigValuePredicate(r, "R05.7")
+}
+
+// checkDecoderLayer: R05.5 layer facts on the Headers of the value a structure
+// decoder stores (shared with R13.2).
+func checkDecoderLayer(r *Report, rule, name string, st *ssa.Store, W *types.Named, ivFn *ssa.Function) {
+	P := r.P
+	V := P.terms.of(st.Val)
+	var vroot *ssa.Alloc
+	if u, ok := st.Val.(*ssa.UnOp); ok {
+		if a, ok := u.X.(*ssa.Alloc); ok {
+			vroot = a
+		}
+	}
+	ol := r.ob(rule, name+":layer", st.Parent(), st, "ok(decode RawProtected->Protected), ok(decode RawUnprotected->Unprotected), ok(IV check) hold for the Headers of the stored value")
+	if vroot == nil {
+		ol.fail("stored value is not a local built in place: " + V.String())
+		return
+	}
+	H := &Term{Op: "field", S: "Headers", Args: []*Term{P.terms.of(vroot)}}
+	fs := P.factsBefore(st)
+	b0 := bindings{"H": H}
+	miss, _ := fs.firstMissing([]factPat{
+		fp(okp("call<invoke:cbor.DecMode.Unmarshal>(%M1, *%H.RawProtected, iface<*ProtectedHeader>(%H.Protected))")),
+		fp(okp("call<invoke:cbor.DecMode.Unmarshal>(%M2, *%H.RawUnprotected, iface<*UnprotectedHeader>(%H.Unprotected))")),
+		fp(okp("call<" + shortFn(ivFn) + ">(%H)")),
+	}, b0)
+	ol.check(miss == "", "three facts on "+H.String(), "missing before the store: "+miss)
+	// raw fields come from the wire struct
+	for _, pr := range [][2]string{{"RawProtected", "Protected"}, {"RawUnprotected", "Unprotected"}} {
+		hv := projectField(projectField(V, "Headers"), pr[0])
+		okRaw := hv.Op == "field" && hv.S == pr[1] && hv.Args[0].Op == "mod" && (W == nil || strings.Contains(hv.Args[0].String(), "*"+W.Obj().Name()))
+		r.ob(rule, name+":raw:"+pr[0], st.Parent(), st, "Headers."+pr[0]+" of the stored value is the wire struct's "+pr[1]+" slot").check(okRaw, hv.String(), "Headers."+pr[0]+" = "+hv.String())
+	}
 }
 
 // c05Buckets: obligations inside the two bucket decoders, the per-entry
